@@ -27,9 +27,9 @@ From CC Require Import Model.AsmSel Model.InlineRename Model.WfCode Proofs.AsmLe
 
 (** whenever asm() accepts a load / store / ALU / compare mnemonic with a data operand, the 6502
     has an addressing mode for it (the explicit "Can't use X addressing on X operation"-style
-    errors do their job); the only emitted-but-unencodable cells are stores whose operand
-    degenerates to an immediate ("#0" high byte), excluded by the last hypothesis and shown never
-    to be requested by the corr-S pass *)
+    errors do their job).  The last hypothesis (stores whose operand degenerates to an immediate,
+    the "#0" high byte) dates from before the "Bad left value" guard of asm(); it is kept so that
+    the statement is unchanged and is not needed any more: C13_asm_legal_strong below *)
 Theorem C13_asm_sel_legal : forall sch m e high m' sg em,
   data_mnemonic m = true -> data_operand e = true ->
   expr_wf e ->
@@ -39,13 +39,30 @@ Theorem C13_asm_sel_legal : forall sch m e high m' sg em,
 Proof. exact asm_sel_legal. Qed.
 
 (** read-modify-write mnemonics: legal exactly for memory, memory+X (and the accumulator for
-    shifts); asm() has no error arm for the others: a finding recorded as Example below *)
+    shifts); apart from the "Bad left value" guard on immediates asm() has no error arm for the
+    others: a finding recorded as Examples in Proofs/AsmLegalFacts.v *)
 Theorem C13_asm_sel_legal_rmw : forall sch m e high m' sg em,
   rmw_mnemonic m = true -> rmw_operand e = true ->
   asm_sel sch m e high = AEmit m' sg em ->
   shape_of (operand_of (e_op em)) <> ShImm ->
   resolve m' (shape_of (operand_of (e_op em))) (popnd_zp e (e_op em)) <> None.
 Proof. exact asm_sel_legal_rmw. Qed.
+
+(** since the "Bad left value" guard: a store or a read-modify-write instruction is never emitted
+    with an immediate operand (the name of an array, &x, the "#0" high byte of an 8-bit object) ... *)
+Theorem C13_asm_no_write_imm : forall sch m e high m' sg em,
+  asm_sel sch m e high = AEmit m' sg em ->
+  writes_mem m' = true ->
+  shape_of (operand_of (e_op em)) <> ShImm.
+Proof. exact asm_sel_no_write_imm. Qed.
+
+(** ... so C13_asm_sel_legal holds without its store hypothesis *)
+Theorem C13_asm_legal_strong : forall sch m e high m' sg em,
+  data_mnemonic m = true -> data_operand e = true ->
+  expr_wf e ->
+  asm_sel sch m e high = AEmit m' sg em ->
+  resolve m' (shape_of (operand_of (e_op em))) (popnd_zp e (e_op em)) <> None.
+Proof. exact asm_sel_legal_strong. Qed.
 
 (** inlining: the suffixing of labels is injective in (counter, label) ... *)
 Theorem C13_suffix_inj : forall n1 n2 l1 l2,
